@@ -33,6 +33,11 @@ SUB_KEEP = {"X", "Y", "W", "XW", "LIP", "GRAD", "W0", "XW0", "CSC_DATA", "CSC_IN
             "CSC_INDICES", "ACC_W", "ACC_XW", "RAWGRAD", "RAWHESS", "SCORE",
             "GRP_PTR", "GRP_IDX", "WS", "ALL"}
 
+# numpy / scipy.sparse methods that modify their receiver in place
+INPLACE_METHODS = {"sum_duplicates", "sort_indices", "eliminate_zeros", "sort", "fill", "resize",
+                   "setdiag", "prune", "put", "itemset", "partition", "byteswap", "setfield",
+                   "clip_inplace", "__setitem__", "sorted_indices_inplace", "has_sorted_indices_setter"}
+
 ENTRY_SEEDS = {
     "_solve": ["X", "Y", "DATAFIT", "PENALTY", "W0", "XW0"],
     "solve": ["X", "Y", "DATAFIT", "PENALTY", "W0", "XW0"],
@@ -499,6 +504,10 @@ class Flow:
                 for kw in st.keywords:
                     if kw.arg == "out" and isinstance(kw.value, ast.Name):
                         out.append((kw.value.id, st, "out="))
+                if isinstance(st.func, ast.Attribute) and st.func.attr in INPLACE_METHODS:
+                    n = self._view_source(st.func.value)
+                    if n:
+                        out.append((n, st, "method:" + st.func.attr))
         return out
 
     def _effects(self):
